@@ -12,7 +12,21 @@ H2 = "self.decode_item_header(data, start)[2]"  # length field of the item heade
 def paths_of(ctx, finfo, params=None, keep=()):
     """Canonical paths of a method (helpers inlined, aliases replaced); Unsupported -> ANALYSIS-ERROR by the caller."""
     fn = normal.normalised(ctx, finfo, keep=keep, comps=False, ifexp=False)
-    return summary.summarise(fn, params)
+    return summary.summarise(fn, params, module_literals(ctx.repo, finfo, fn))
+
+
+def module_literals(repo, finfo, fn) -> dict:
+    """Module-level list/tuple literals the function reads by name (`_ITEM_TYPES = [...]`): {name: expression}."""
+    import ast as _ast
+
+    bound = {a.arg for a in fn.args.args + fn.args.kwonlyargs} | {n.id for n in _ast.walk(fn) if isinstance(n, _ast.Name) and isinstance(n.ctx, _ast.Store)}
+    out = {}
+    for n in _ast.walk(fn):
+        if isinstance(n, _ast.Name) and isinstance(n.ctx, _ast.Load) and n.id not in bound and n.id not in out:
+            target = repo.resolve(finfo.module, n.id)
+            if isinstance(target, (_ast.List, _ast.Tuple)) and all(isinstance(e, (_ast.Name, _ast.Constant, _ast.Attribute)) for e in target.elts):
+                out[n.id] = target
+    return out
 
 
 def decode_params():
@@ -73,7 +87,7 @@ def _relevant(effects):
                 out.append(("if", e[1], tuple(a), tuple(b)))
         elif e[0] in ("store", "raise", "del", "return"):
             out.append(e)
-        elif e[0] == "call" and (e[1].startswith("self.") or e[1].startswith("cls.")) and not e[1].startswith(("self.logger", "self._logger", "self.__class__")):
+        elif e[0] == "call" and not e[1].startswith(("self.logger.", "self._logger.", "logging.", "logger.", "print(", "warnings.")):
             out.append(e)
     return out
 
